@@ -258,7 +258,7 @@ func init() {
 		}})
 
 	// ---------------- C12: a change is never lost to a transient failure
-	allFaults := []string{"disk.write_fail", "disk.write_torn", "disk.enospc", "disk.read_fail", "sock.dial_refused", "sock.write_fail", "sock.read_timeout",
+	allFaults := []string{"disk.write_fail", "disk.write_torn", "disk.enospc", "disk.crt_write_fail", "disk.read_fail", "sock.dial_refused", "sock.write_fail", "sock.read_timeout",
 		"sock.reset_before_exec", "sock.reset_after_exec", "sock.nonok_reply", "sock.garbage_reply", "haproxy.reload_fail", "haproxy.reload_slow"}
 	register(&Profile{Name: "faults", Prop: "C12", Weight: 1,
 		Oracles: OracleSet{Property: "C12", Converge: true},
@@ -274,10 +274,19 @@ func init() {
 			if _, avoid := avoidFlags(); avoid["no_disk_write_faults"] {
 				pool = nil
 				for _, f := range allFaults {
-					if !strings.HasPrefix(f, "disk.write") && f != "disk.enospc" {
+					if !strings.HasPrefix(f, "disk.write") && f != "disk.enospc" { // (disk.crt_write_fail stays)
 						pool = append(pool, f)
 					}
 				}
+			}
+			if _, avoid := avoidFlags(); avoid["no_crt_write_faults"] {
+				var keep []string
+				for _, f := range pool {
+					if f != "disk.crt_write_fail" {
+						keep = append(keep, f)
+					}
+				}
+				pool = keep
 			}
 			for i := 0; i < n; i++ {
 				rc.Faults[pool[r.IntN(len(pool))]] = pickInt(r, 20, 50, 150, 400)
